@@ -37,6 +37,10 @@ type solverSpec struct {
 // total, for every random seed tried (0..7).
 var solvers = []solverSpec{
 	{"z3-new/ps1", func(f string, t int) []string {
+		// E-matching only: every refutation is built from instances of the asserted quantifiers
+		return []string{"z3-new", fmt.Sprintf("-T:%d", t), "auto_config=false", "smt.case_split=0", "smt.phase_selection=1", "smt.mbqi=false", f}
+	}},
+	{"z3-new/ps1m", func(f string, t int) []string {
 		return []string{"z3-new", fmt.Sprintf("-T:%d", t), "auto_config=false", "smt.case_split=0", "smt.phase_selection=1", f}
 	}},
 	{"z3-new", func(f string, t int) []string { return []string{"z3-new", fmt.Sprintf("-T:%d", t), f} }},
